@@ -290,7 +290,61 @@ func c15Decorations(full bool) [][]c15Item {
 	return ds
 }
 
+// c15Unicode: comment texts with every code point of the block that contains the two JavaScript line
+// separators (U+2000..U+203F without U+2028/U+2029), and one code point of every UTF-8 length.
+func c15Unicode(c *core.Ctx) {
+	var cps []rune
+	for r := rune(0x2000); r <= 0x203F; r++ {
+		if r != 0x2028 && r != 0x2029 {
+			cps = append(cps, r)
+		}
+	}
+	cps = append(cps, 0xA0, 0xE9, 0x7FF, 0x800, 0xFEFF, 0xFFFD, 0x1F600, 0x10FFFF, 0x85, 0x2060, 0x3000)
+	skel := []string{"a ;", "if ( c ) {", "b ;", "}"}
+	for i, r := range cps {
+		if !c.Mine(int64(i)) {
+			continue
+		}
+		text := " x" + string(r) + "y z"
+		for slot := 0; slot <= len(skel); slot++ {
+			for _, trailing := range []bool{false, true} {
+				if trailing && slot == 0 {
+					continue
+				}
+				var lines []string
+				for j, l := range skel {
+					if j == slot && !trailing {
+						lines = append(lines, "//"+text)
+					}
+					if j+1 == slot && trailing {
+						l += " //" + text
+					}
+					lines = append(lines, l)
+				}
+				if slot == len(skel) && !trailing {
+					lines = append(lines, "//"+text)
+				}
+				src := strings.Join(lines, "\n")
+				plain := strings.Join(skel, "\n")
+				c.Cur(src)
+				c.Inc("decorated_programs")
+				c.Inc("programs_with_comments")
+				c.Inc("unicode_comment_programs")
+				k, d := c15Check(src, plain, map[int]bool{})
+				if k == "" {
+					k, d = c15Neutral(src)
+				}
+				if k != "" && c.ShrinkOK("u"+k) {
+					pl, _ := json.Marshal(c15Payload{src, plain})
+					c.Violate(core.Violation{Kind: k, Config: fmt.Sprintf("comment text with U+%04X", r), Case: fmt.Sprintf("%q", src), Detail: d, Payload: pl, Size: 30, Sig: k + "|" + fmt.Sprintf("U+%04X", r)})
+				}
+			}
+		}
+	}
+}
+
 func c15Run(c *core.Ctx) {
+	c15Unicode(c)
 	decos := c15Decorations(c.Thorough())
 	pairDecos := [][]c15Item{decos[0], decos[1], {{Kind: 'B', N: 1}}, {{Kind: 'C', Text: " c1"}, {Kind: 'B', N: 1}}, {{Kind: 'T', Text: " `tick"}}}
 	report := func(k, d, src, plain string, size int, class string) {
